@@ -274,6 +274,7 @@ def glencoe_emit(shape, cards, names, opts, trees):
             relof[c] = ri
     feats = {}
     order = list(range(n))
+    ids = ['f_%d' % (i + 1) for i in range(n)] if opts.get('ids_differ') else list(names)
     if opts.get('reverse_keys'):
         order.reverse()
     for i in order:
@@ -299,10 +300,10 @@ def glencoe_emit(shape, cards, names, opts, trees):
                 info['optional'] = True
             else:
                 info['optional'] = (cards[ri][0] == 0)
-        feats[names[i]] = info
+        feats[ids[i]] = info
 
     def tree(i):
-        node = {'id': names[i]}
+        node = {'id': ids[i]}
         kids = [c for ri in rbp[i] for c in rels[ri][1]]
         if opts.get('reverse_children'):
             kids = list(reversed(kids))
@@ -310,9 +311,16 @@ def glencoe_emit(shape, cards, names, opts, trees):
             node['children'] = [tree(c) for c in kids]
         return node
     ctcs = {}
+    idof = dict(zip(names, ids))
     for k, t in enumerate(trees):
-        ctcs['c%d' % k] = _glencoe_term(t)
+        ctcs['c%d' % k] = _glencoe_term(_rename_ids(t, idof))
     return {'id': 'FM', 'name': 'FM', 'features': feats, 'tree': tree(0), 'constraints': ctcs}
+
+
+def _rename_ids(t, idof):
+    if isinstance(t, tuple):
+        return (t[0],) + tuple(_rename_ids(x, idof) for x in t[1:])
+    return idof.get(t, t)
 
 
 GL_TERM = {'NOT': 'NotTerm', 'AND': 'AndTerm', 'OR': 'OrTerm', 'XOR': 'XorTerm', 'IMPLIES': 'ImpliesTerm', 'EXCLUDES': 'ExcludesTerm', 'EQUIVALENCE': 'EquivalentTerm'}
@@ -508,7 +516,7 @@ def batch_glencoe(max_n, lo, hi, seed):
     shapes = [s for s in R.shapes(max_n) if c08.in_fragment_shape(s)]
     for shape in shapes[lo:hi]:
         for cards in glencoe_fragment_cards(shape):
-            for opts in [dict(), {'reverse_keys': 1}, {'reverse_children': 1}, {'or_as_genor': 1}]:
+            for opts in [dict(), {'reverse_keys': 1}, {'reverse_children': 1}, {'or_as_genor': 1}, {'ids_differ': 1}, {'ids_differ': 1, 'reverse_keys': 1}]:
                 args = [shape, cards, opts, rnd.randrange(len(GL_CTCS))]
                 res['instances'] += 1
                 res['native_runs'] += 1
@@ -656,8 +664,8 @@ def conditions(tier, seed):
                               sample={'shape': R.shape_str(shape), 'symbolic': 'all (min,max)', 'opts': opts}, validate=[dc]))
         if c08.in_fragment_shape(shape):
             gc = glencoe_fragment_cards(shape)
-            for oi, opts in enumerate([{}, {'reverse_keys': 1, 'reverse_children': 1}, {'or_as_genor': 1}]):
-                if tier == 'quick' and oi != (si % 3):
+            for oi, opts in enumerate([{}, {'reverse_keys': 1, 'reverse_children': 1, 'ids_differ': 1}, {'or_as_genor': 1}, {'ids_differ': 1}]):
+                if tier == 'quick' and oi not in (si % 3, 3):
                     continue
                 conds.append(Cond(name='c09_glencoe_%d_%d' % (si, oi), imports=imp, params=cp, pre=c08.fragment_pre(shape),
                                   body='P.glencoe_ok(SHAPE_%d, %s, %r, %d)' % (si, cexpr, opts, (si + oi) % len(GL_CTCS)), timeout=T,
